@@ -130,6 +130,9 @@ func linDepth(v ssa.Value, d int) linForm {
 		return linDepth(x.X, d+1)
 	case *ssa.Call:
 		if b, ok := x.Call.Value.(*ssa.Builtin); ok && b.Name() == "len" {
+			if d < 12 {
+				return lenLinD(x.Call.Args[0], d+1)
+			}
 			r.coef["len("+normSym(x.Call.Args[0])+")"] = 1
 			return r
 		}
@@ -277,8 +280,7 @@ func indexInBounds(idx, seq ssa.Value, b *ssa.BasicBlock) (lower, upper bool) {
 	g := lin(idx)
 	lower = proveNonNeg(g, hyps, us)
 	// len(seq) - idx - 1 >= 0
-	l := newLin()
-	l.coef["len("+normSym(seq)+")"] = 1
+	l := lenLin(seq)
 	u := l.add(g, -1)
 	u.c -= 1
 	upper = proveNonNeg(u, hyps, us)
@@ -391,4 +393,32 @@ func coCounter(p *ssa.Phi) (init, idx ssa.Value, ok bool) {
 		}
 	}
 	return nil, nil, false
+}
+
+// lenLin: the length of a sequence as a linear form: of `x[lo:hi]` (a slice of
+// a slice, which panics unless the bounds fit) it is hi - lo, of anything else
+// the symbol len(seq).
+func lenLin(seq ssa.Value) linForm { return lenLinD(seq, 0) }
+
+func lenLinD(seq ssa.Value, d int) linForm {
+	if sl, ok := unwrapLoad(seq).(*ssa.Slice); ok && sl.High != nil {
+		if _, isSlice := sl.X.Type().Underlying().(*types.Slice); isSlice {
+			l := linDepth(sl.High, d+1)
+			if sl.Low != nil {
+				l = l.add(linDepth(sl.Low, d+1), -1)
+			}
+			return l
+		}
+	}
+	l := newLin()
+	l.coef["len("+normSym(seq)+")"] = 1
+	return l
+}
+
+// belowLenByConstruction: idx < len(seq) holds without any branch fact (idx is
+// the length minus a positive constant).
+func belowLenByConstruction(idx, seq ssa.Value) bool {
+	u := lenLin(seq).add(lin(idx), -1)
+	u.c -= 1
+	return proveNonNeg(u, nil, nil)
 }
